@@ -17,7 +17,8 @@ lines from the real crate.
 * `<ops>`: `.`-separated operations: `n` (no reference), `c<T>` `DW_OP_call4`, `C<T>` `DW_OP_call_ref`,
   `t<T>` a typed operation (`deref_type`, `regval_type`, `const_type`, `convert`, `reinterpret` by
   target id mod 5), `p<T>` `DW_OP_GNU_parameter_ref`, `i<T>` `DW_OP_implicit_pointer`,
-  `v<T>` `DW_OP_GNU_variable_value`, `e<op>` the operation nested in a `DW_OP_entry_value`.
+  `v<T>` `DW_OP_GNU_variable_value`, `e<op>` the operation nested in a `DW_OP_entry_value`,
+  `E<k>_<op>` the operation nested in `k` `DW_OP_entry_value`s (`e<op>` = `E1_<op>`).
 * `<T>`: an entry id, `R<unit>` (the root DIE of that unit), `O` (out of bounds of the unit / the
   section), `M<id>` (one byte into the DIE `id`).
 * `<required>`: `,`-separated ids passed to `require_entry` (`-` = none).
@@ -91,17 +92,27 @@ def secVal (l : Layout) : Tgt → Option Nat
   | .mid id => do let (u, r) ← l.relOff id; let h ← l.unitHdr u; some (h.base + r + 1)
 end Layout
 
+/-- the operation inside `depth` nested `DW_OP_entry_value`s -/
+def parseNested (l : Layout) (u : Nat) (depth : Nat) : List Char → Option (Option OpRef)
+  | ['n'] => some (some (.nestedPlain depth))
+  | 'c' :: t | 't' :: t | 'p' :: t => do
+      let v ← l.unitVal u (← parseTgt t); some (some (.nestedUnitRef depth v))
+  | 'C' :: t | 'i' :: t | 'v' :: t => do
+      let v ← l.secVal (← parseTgt t); some (some (.nestedInfoRef depth v))
+  | _ => none
+
 /-- one operation: `none` inside = no reference -/
 def parseOp (l : Layout) (u : Nat) : List Char → Option (Option OpRef)
   | ['n'] => some none
   | 'c' :: t | 't' :: t | 'p' :: t => do let v ← l.unitVal u (← parseTgt t); some (some (.unitRef v))
   | 'C' :: t => do let v ← l.secVal (← parseTgt t); some (some (.infoRef v))
   | 'i' :: t | 'v' :: t => do let v ← l.secVal (← parseTgt t); some (some (.implicitRef v))
-  | ['e', 'n'] => some none
-  | 'e' :: 'c' :: t | 'e' :: 't' :: t | 'e' :: 'p' :: t => do
-      let v ← l.unitVal u (← parseTgt t); some (some (.nestedUnitRef v))
-  | 'e' :: 'C' :: t | 'e' :: 'i' :: t | 'e' :: 'v' :: t => do
-      let v ← l.secVal (← parseTgt t); some (some (.nestedInfoRef v))
+  | 'e' :: r => parseNested l u 1 r
+  | 'E' :: r =>
+    -- `E<k>_<op>`: the operation nested in k `DW_OP_entry_value`s
+    match (String.ofList r).splitOn "_" with
+    | [k, op] => do let k ← k.toNat?; if k = 0 || k > 512 then none else parseNested l u k op.toList
+    | _ => none
   | _ => none
 
 def parseOps (l : Layout) (u : Nat) (s : String) : Option (List OpRef) :=
